@@ -81,32 +81,38 @@ def moveToFront (pushFirst : Bool) (i : Nat) (r : RArena) (l : Ledger) : Out × 
       | other => other
     else pushFront b (eraseAt i r) l
 
+/-- allocateBlock(), first half: a block with room at the front of the list -/
+def needNew (r : RArena) : Bool := match r.nodes with | (_, b) :: _ => !available b | [] => true
+
+def ensureFront (r : RArena) (l : Ledger) : Out × RArena × Ledger :=
+  if needNew r then
+    match Arena.create r.bs l with
+    | (none, l1) => (.oom, r, l1)
+    | (some nb, l1) =>
+      match pushFront nb r l1 with
+      | (.ok, r2, l2) => (.ok, r2, l2)
+      | (_, r2, l2) => (.oom, { r2 with lost := nb.blk :: nb.arr :: r2.lost }, l2)   -- the new block is leaked
+  else (.ok, r, l)
+
+/-- construct in the front block and commit; a block that became full goes to the tail (pop_front parks the node,
+push_back reuses it) -/
+def constructFront (x : Int) (r : RArena) (l : Ledger) : Out × Option (Nat × Nat) × RArena × Ledger :=
+  match r.nodes with
+  | (n, b) :: rest =>
+    let slot := b.freeList.head?.getD 0
+    let c := b.construct x l
+    let b1 := c.2.2.1
+    if c.1 = .ok ∧ !c.2.1 then
+      if available b1 then (.ok, some (b1.blk, slot), { r with nodes := (n, b1) :: rest }, c.2.2.2)
+      else (.ok, some (b1.blk, slot), { r with nodes := rest ++ [(n, b1)] }, c.2.2.2)
+    else (c.1, none, { r with nodes := (n, b1) :: rest }, c.2.2.2)
+  | [] => (.ub, none, r, l)
+
 /-- `T::create`: allocateBlock, construct (one refusable allocation), commitAllocation.
 Returns the position (block object id, slot) of the new object when it was made. -/
 def create (x : Int) (r : RArena) (l : Ledger) : Out × Option (Nat × Nat) × RArena × Ledger :=
-  let needNew : Bool := match r.nodes with | (_, b) :: _ => !available b | [] => true
-  let r1l1 : Out × RArena × Ledger :=
-    if needNew then
-      match Arena.create r.bs l with
-      | (none, l1) => (.oom, r, l1)
-      | (some nb, l1) =>
-        match pushFront nb r l1 with
-        | (.ok, r2, l2) => (.ok, r2, l2)
-        | (_, r2, l2) => (.oom, { r2 with lost := nb.blk :: nb.arr :: r2.lost }, l2)   -- the new block is leaked
-    else (.ok, r, l)
-  match r1l1 with
-  | (.ok, r1, l1) =>
-    (match r1.nodes with
-     | (n, b) :: rest =>
-       let slot := b.freeList.head?.getD 0
-       let c := b.construct x l1
-       let b1 := c.2.2.1
-       if c.1 = .ok ∧ !c.2.1 then
-         -- committed; a block that became full goes to the tail (pop_front parks the node, push_back reuses it)
-         if available b1 then (.ok, some (b1.blk, slot), { r1 with nodes := (n, b1) :: rest }, c.2.2.2)
-         else (.ok, some (b1.blk, slot), { r1 with nodes := rest ++ [(n, b1)] }, c.2.2.2)
-       else (c.1, none, { r1 with nodes := (n, b1) :: rest }, c.2.2.2)
-     | [] => (.ub, none, r1, l1))
+  match ensureFront r l with
+  | (.ok, r1, l1) => constructFront x r1 l1
   | (o, r1, l1) => (o, none, r1, l1)
 
 def setBlock (i : Nat) (b : Arena) (r : RArena) : RArena :=
@@ -144,12 +150,13 @@ def destroyObject (pushFirst : Bool) (blk slot : Nat) (r : RArena) (l : Ledger) 
         | none => (.ub, r, l)))
 
 /-- `~ReusableArenaAllocator` → `ArenaAllocator::reset()`: delete every block, clear the list, ~XalanList -/
+def destroyStep (acc : Out × Ledger) (nb : Nat × Arena) : Out × Ledger :=
+  match acc with
+  | (.ok, l1) => nb.2.destroy true l1
+  | other => other
+
 def destroy (r : RArena) (l : Ledger) : Out × Ledger :=
-  let step := fun (acc : Out × Ledger) (nb : Nat × Arena) =>
-    match acc with
-    | (.ok, l1) => nb.2.destroy true l1
-    | other => other
-  match r.nodes.foldl step (.ok, l) with
+  match r.nodes.foldl destroyStep (.ok, l) with
   | (.ok, l1) =>
     let l2 := l1.freeAll (r.nodes.map (·.1))
     let l3 := l2.freeAll r.freeNodes
